@@ -29,7 +29,7 @@ def gen_cases(tier, seed):
     out = []
     for i in range(n):
         s = env.seed_for(seed, ID, tier, i)
-        r = random.Random(s)
+        r = random.Random(env.seed_for(s, "descriptor"))  # independent of the stream run_case derives from the same seed
         if r.random() < 0.15:
             out.append({"seed": s, "mode": "cyclic", "n": r.randint(2, 20), "W": r.choice([1, 2, 4, 8]),
                         "sched": r.choice(["default", "random"]), "kind": r.choice(["self", "two", "long", "lit", "unneeded", "needed"]),
